@@ -173,11 +173,12 @@ fn check_one(spec: &SysSpec, entry: u64, unrolls: u64, rep: &Report) -> Result<b
         }
     }
     // executions: state at the entry step, inputs per step, values of next-less states per later step
-    let start_states: Vec<Vec<Val>> = if entry == 0 {
-        ts.initial_states()
+    // (an initial state may be coupled with only some inputs of step 0: init expressions reading inputs)
+    let start_states: Vec<(Vec<Val>, Option<Vec<Vec<Val>>>)> = if entry == 0 {
+        ts.initial_configs()
     } else {
         let alph: Vec<Vec<Val>> = ts.state_tys.iter().map(|t| Ts::all_values(*t)).collect();
-        product(&alph)
+        product(&alph).into_iter().map(|s| (s, None)).collect()
     };
     let inputs = ts.input_space();
     let mut n_exec = 0u64;
@@ -189,6 +190,7 @@ fn check_one(spec: &SysSpec, entry: u64, unrolls: u64, rep: &Report) -> Result<b
     fn rec_exec(
         ts: &Ts,
         inputs: &[Vec<Val>],
+        first: Option<&[Vec<Val>]>,
         trace: &mut Vec<Frame>,
         st: Vec<Val>,
         remaining: u64,
@@ -196,7 +198,7 @@ fn check_one(spec: &SysSpec, entry: u64, unrolls: u64, rep: &Report) -> Result<b
         cap: u64,
         f: &mut dyn FnMut(&[Frame]) -> Result<(), (String, String)>,
     ) -> Result<(), (String, String)> {
-        for i in inputs.iter() {
+        for i in first.unwrap_or(inputs).iter() {
             if *n_exec >= cap {
                 return Ok(());
             }
@@ -206,7 +208,7 @@ fn check_one(spec: &SysSpec, entry: u64, unrolls: u64, rep: &Report) -> Result<b
                 f(trace)?;
             } else {
                 for n in ts.successors(&st, i) {
-                    rec_exec(ts, inputs, trace, n, remaining - 1, n_exec, cap, f)?;
+                    rec_exec(ts, inputs, None, trace, n, remaining - 1, n_exec, cap, f)?;
                 }
             }
             trace.pop();
@@ -271,8 +273,8 @@ fn check_one(spec: &SysSpec, entry: u64, unrolls: u64, rep: &Report) -> Result<b
         Ok(())
     };
     let mut trace = vec![];
-    for s0 in start_states {
-        rec_exec(&ts, &inputs, &mut trace, s0, unrolls, &mut n_exec, cap, &mut checker)?;
+    for (s0, first) in start_states {
+        rec_exec(&ts, &inputs, first.as_deref(), &mut trace, s0, unrolls, &mut n_exec, cap, &mut checker)?;
     }
     if n_exec >= cap {
         rep.cap_hit("more than 4096 executions for some (system, entry, depth): only the first 4096 evaluated");
